@@ -49,6 +49,9 @@ var exStrings = []exStr{
 	// an escaped backslash followed by a letter that would itself be an escape
 	{`"C:\\new\\table\\report.log"`, `C:\new\table\report.log`}, {`"\\n"`, `\n`}, {`"\\\\"`, `\\`}, {`"\\b\\f\\r\\/"`, `\b\f\r\/`},
 	{`"\\\n"`, "\\\n"},
+	// escapes next to characters outside ASCII, runs of blanks and other white space inside a value
+	{`"é\n日本\t✓"`, "é\n日本\t✓"}, {`"naïve \"quote\" 🙂"`, `naïve "quote" 🙂`}, {`"\\ü\/ß"`, `\ü/ß`}, {`"%d  %msg   end"`, "%d  %msg   end"},
+	{"\"nb\u00a0sp \u2003em\"", "nb\u00a0sp \u2003em"}, {"\" lead and trail  \"", " lead and trail  "}, {"\"a\r\n\r\nb\"", "a\r\n\r\nb"},
 }
 
 func cmdExprParse(f hx.Flags, r *hx.Result) {
@@ -213,6 +216,32 @@ func exRunCase(r *hx.Result, rng *rand.Rand, c *exCase) {
 		if gv, ok := got[k]; !ok || gv != v {
 			r.Violate("flatten-mismatch", desc, "key %q: got %q (present=%v), specification %q; full result %v", k, gv, ok, v, got)
 			return
+		}
+	}
+	// the result is the caller's: whatever the caller does to it, the same text parsed again (here with other white
+	// space around it) flattens to the same map
+	if rng.Intn(4) == 0 {
+		for k := range got {
+			got[k] = "edited by the caller"
+		}
+		delete(got, "type")
+		got["added.by.the.caller"] = "x"
+		var again map[string]string
+		ret, p := hx.Within(5*time.Second, func() { again, perr = expr.Parse("\t" + strings.TrimSpace(input) + " \n") })
+		r.Eval(1)
+		if !ret || p != nil || perr != nil {
+			r.Violate("second-parse-failed", desc, "the same expression parsed a second time: returned=%v panic=%v err=%v", ret, p, perr)
+			return
+		}
+		if len(again) != len(want) {
+			r.Violate("flatten-mismatch:second-parse", desc, "parsed a second time (after the caller edited the first result) expr.Parse returned %v, specification: %v", again, want)
+			return
+		}
+		for k, v := range want {
+			if gv, ok := again[k]; !ok || gv != v {
+				r.Violate("flatten-mismatch:second-parse", desc, "parsed a second time (after the caller edited the first result): key %q: got %q (present=%v), specification %q", k, gv, ok, v)
+				return
+			}
 		}
 	}
 }
